@@ -28,13 +28,13 @@ MANIFEST = {
             "printer_xml.c (shrink mode; namespace-declaration stack, metadata attributes, any node selection); "
             "C01_xml_doc_roundtrip / _sel / _id: the libyang-side reader (XML element grammar + the model of lyxml_parse_value + "
             "schema-directed conversion) applied to xml_print gives back exactly the selected part of every canonical forest, default "
-            "flags cleared (a document does not carry them), for side tables in which a prefix stands for one namespace; JSON: "
+            "flags cleared (a document does not carry them) - also when two modules share a prefix (numbered prefixes of "
+            "xml_print_ns since 91f0178, modelled by uniq_prefix); JSON: "
             "json_print = transcription of printer_json.c WITH its state (level, level_printed, open arrays, first_leaflist), "
-            "json_doc = rendering of the RFC 7951 value; C01_json_print_is_rfc7951: with every node selected the state machine "
-            "prints exactly json_doc on canonical forests (pre-order sids); C01_json_doc_roundtrip: json_parse (json_print_all f) "
-            "= f without flags; for other selections only the rendering of the selected part is proved to read back "
-            "(C01_json_doc_roundtrip_sel_partial) - that libyang prints it in explicit mode is checked by T2 on every case, and it "
-            "is false in trim mode (finding json-trim-leaflist-meta). Tie: libyang's XML and JSON output "
+            "json_doc = rendering of the RFC 7951 value; C01_json_print_is_rfc7951: for EVERY node selection the state machine "
+            "prints exactly json_doc of the selected part on canonical forests (pre-order sids) - since f592167 also where the "
+            "selection cuts through a leaf-list that carries metadata (trim mode); C01_json_doc_roundtrip / _sel / _checked: "
+            "json_parse (json_print sel f) = the selected part of f without flags. Tie: libyang's XML and JSON output "
             "(explicit, report-all, trim, keep-empty; shrink) for generated modules / instances with metadata and empty-typed "
             "leaf-lists is byte-identical to the extracted printers, and the extracted readers applied to LIBYANG's bytes return "
             "libyang's dump; the executable hypotheses of the theorems are evaluated on every case. Whole documents for what the "
@@ -50,8 +50,10 @@ MANIFEST = {
             "grammar + schema-directed conversion), not transcriptions of parser_xml.c / parser_json.c (no re-ordering, validation, "
             "default flags): tied by reading libyang's own output only. Not modelled in Coq: opaque nodes, anydata, several data "
             "modules, operations, the tagged with-defaults modes, LYB documents, formatted (non-shrink) output: API-level oracles "
-            "only. Findings of this slice are listed in known_findings.d/doc.json (json-trim-leaflist-meta, xml-meta-prefix-clash, "
-            "json-opaq-attr-unqualified, json-anydata-unqualified, json-anydata-nested-same-list, json-opaq-mixed-array, "
-            "json-opaq-list-value-lost), each with a replay and a proposed patch.",
+            "only. The seven findings of this slice (json-trim-leaflist-meta, xml-meta-prefix-clash, json-opaq-attr-unqualified, "
+            "json-anydata-unqualified, json-anydata-nested-same-list, json-opaq-mixed-array, json-opaq-list-value-lost) are fixed "
+            "(known_findings.d/doc.json: commits; their witnesses are regression cases of RoundTripX / WellFormedX and Examples "
+            "of the Properties files; no oracle excuses them any more). Listed and open: json-opaq-array-attr (attributes of "
+            "opaque array instances in JSON), with replays and a proposed patch.",
     "technique": "Coq proof over hand-written model + differential correspondence (extracted OCaml vs C) + round-trip oracle",
 }
